@@ -14,15 +14,25 @@
 (*   "inputs" every input (files <= MaxFiles, values per file <= MaxVals,    *)
 (*            nsel in NSel, root shapes ShapeSet) x the fixed rule lists     *)
 (*   "sim"    both built freely, arrays grown up to MaxArr (for -simulate)   *)
+(*   "cells"  every rule list of length <= MaxRules over the alphabet of     *)
+(*            WRITING rules (Alpha = "cells": each body may assign $, $.p or *)
+(*            $file after printing) x the fixed inputs CellInputs[i], i in   *)
+(*            InputSel: files with several JSON values, and selector lists   *)
+(*            that select the same subtree twice or one inside the other     *)
+(* sels[s] is the key the s-th selector picks from the object every value is *)
+(* (0: the whole value, `$`); two selectors with the same key select the     *)
+(* same subtree of the value -- in the specification two separate roots.     *)
 EXTENDS JqDriver
 
 CONSTANTS Fam, Alpha, MaxRules, MaxFiles, MaxVals, MaxArr, InputSel, NSel
 
-VARIABLES nsel, cstage      \* number of selectors; "rules" | "input": what the configuration phase may still add
-vars == <<dvars, nsel, cstage>>
+VARIABLES nsel, cstage,     \* number of selectors; "rules" | "input": what the configuration phase may still add
+          sels              \* per selector the key it picks (0: the whole value)
+vars == <<dvars, nsel, cstage, sels>>
 
 \* ---- rules
-R(k, p, b) == [kind |-> k, haspat |-> p # "none", pat |-> p, body |-> b]
+RW(k, p, b, w) == [kind |-> k, haspat |-> p # "none", pat |-> p, body |-> b, w |-> w]
+R(k, p, b) == RW(k, p, b, "none")
 CoreAlphabet ==
   {R("BF", "none", "print"), R("EF", "none", "print"), R("E", "none", "print"),
    R("P", "none", "print"), R("P", "self", "next"), R("P", "memb", "print"), R("P", "T", "exit"),
@@ -32,10 +42,19 @@ FullAlphabet ==
   {R(k, "none", b) : k \in {"BF", "EF", "E"}, b \in {"print", "exit", "bare"}} \cup
   {R("P", p, b) : p \in {"none", "T", "F", "self", "memb"}, b \in {"print", "next", "exit"}} \cup
   {R("P", p, "bare") : p \in {"T", "F", "self", "memb"}}
-Alphabet == IF Alpha = "core" THEN CoreAlphabet ELSE FullAlphabet
+\* rules that write after printing: `$ = v` (sd), `$.p = v` where $ is an object (sm), `$file = v` (sf; $file exists
+\* only while a value is being processed: not in BEGIN, and END's $file is left open)
+CellAlphabet ==
+  {RW("B", "none", "print", w) : w \in {"none", "sd"}} \cup
+  {RW(k, "none", "print", w) : k \in {"BF", "EF"}, w \in {"none", "sd", "sf", "sm"}} \cup
+  {RW("P", p, "print", w) : p \in {"none", "memb", "nmemb", "self"}, w \in {"none", "sd", "sf", "sm"}} \cup
+  {RW("P", "nmemb", "next", "sm"), RW("P", "none", "exit", "sd"), RW("P", "memb", "bare", "none")} \cup
+  {RW("E", "none", "print", w) : w \in {"none", "sd"}} \cup {RW("E", "none", "bare", "none")}
+Alphabet == IF Alpha = "core" THEN CoreAlphabet ELSE IF Alpha = "cells" THEN CellAlphabet ELSE FullAlphabet
 
-\* a rule without a body cannot be written directly before a pattern rule without a pattern
-CanFollow(rs, r) == (Len(rs) > 0 /\ rs[Len(rs)].body = "bare") => ~(r.kind = "P" /\ r.pat = "none")
+\* a rule without a body cannot be written directly before a pattern rule without a pattern, nor before a
+\* pattern that begins with the operator `!` (the grammar reads on: a body, a binary operator)
+CanFollow(rs, r) == (Len(rs) > 0 /\ rs[Len(rs)].body = "bare") => ~(r.kind = "P" /\ r.pat \in {"none", "nmemb"})
 
 SigOf(r) == IF r.body \in {"next", "exit"} THEN r.body ELSE "none"
 
@@ -49,6 +68,7 @@ Truth(p, ek) ==
     [] p = "F" -> FALSE
     [] p = "self" -> ek \in {"n1", "s1", "o1", "o0", "ar"}
     [] p = "memb" -> ek = "o1"
+    [] p = "nmemb" -> ek # "o1"        \* `!$.p`
 
 \* ---- root shapes
 A(es) == [n |-> Len(es), a |-> TRUE, es |-> es]        \* array root with these elements
@@ -64,6 +84,21 @@ Inputs == <<
   [nsel |-> 1, files |-> << << <<A(<<"n1", "o0", "s0">>)>>, <<A(<<>>)>> >>, << <<A(<<"o1">>)>> >> >>]   \* arrays only: $index is printed
 >>
 
+\* inputs of family "cells": [sels, files]; a selector of the whole value (key 0) selects an object without p
+CellInputs == <<
+  \* no selector: three values in one file, two in the next
+  [sels |-> <<>>, files |-> << << <<A(<<"o0", "o1", "n1">>)>>, <<A(<<"o0">>)>>, <<S("o0")>> >>, << <<S("o1")>>, <<S("o0")>> >> >>],
+  \* the same subtree twice
+  [sels |-> <<1, 1>>, files |-> << << <<A(<<"o0", "o1">>), A(<<"o0", "o1">>)>>, <<S("o0"), S("o0")>> >>, << <<S("o1"), S("o1")>> >> >>],
+  \* a subtree, then the whole value; the whole value, then a subtree
+  [sels |-> <<1, 0>>, files |-> << << <<A(<<"o0", "s1">>), S("o0")>>, <<S("o0"), S("o0")>> >> >>],
+  [sels |-> <<0, 1>>, files |-> << << <<S("o0"), A(<<"o1", "o0">>)>> >>, << <<S("o0"), S("o1")>>, <<S("o0"), S("nul")>> >> >>],
+  \* two subtrees around a repeated one
+  [sels |-> <<1, 2, 1>>, files |-> << << <<S("o0"), A(<<"o0">>), S("o0")>>, <<A(<<"o0", "o0">>), S("n1"), A(<<"o0", "o0">>)>> >> >>],
+  \* arrays only ($index is printed), the same subtree twice, two values in the first file
+  [sels |-> <<1, 1>>, files |-> << << <<A(<<"o0", "o1">>), A(<<"o0", "o1">>)>>, <<A(<<"n1">>), A(<<"n1">>)>> >>, << <<A(<<"o1", "o0">>), A(<<"o1", "o0">>)>> >> >>]
+>>
+
 RuleLists == {
   <<R("B", "none", "print"), R("BF", "none", "print"), R("P", "none", "print"), R("EF", "none", "print"), R("E", "none", "print")>>,
   <<R("P", "self", "print"), R("E", "none", "print"), R("P", "memb", "next"), R("B", "none", "print"), R("P", "none", "print"), R("B", "none", "print")>>,
@@ -77,116 +112,186 @@ ShapeSet ==
   IF Fam = "sim" THEN {S(k) : k \in ElemKinds \ {"ar"}} \cup {A(<<>>)}
   ELSE {A(<<>>), A(<<"s1">>), A(<<"o1", "n0">>), S("o0"), S("n1"), S("nul")}
 
-Values(ns) == [1..(IF ns = 0 THEN 1 ELSE ns) -> ShapeSet]
+\* selector lists of family "sim": distinct keys, or (with the writing rules) a repeated key / the whole value
+SelLists(ns) ==
+  {[s \in 1..ns |-> s]} \cup
+  (IF Alpha = "cells" /\ ns = 2 THEN {<<1, 1>>, <<1, 0>>, <<0, 1>>} ELSE {})
+\* the roots of one value: selectors with the same key select the same thing, the whole value is an object without p
+Values(ns) ==
+  {val \in [1..(IF ns = 0 THEN 1 ELSE ns) -> ShapeSet] :
+     \A s \in 1..Len(sels) :
+        /\ sels[s] = 0 => val[s] = S("o0")
+        /\ \A t \in 1..Len(sels) : sels[s] = sels[t] => val[s] = val[t]}
 
 \* ---- the configuration phase
 Init ==
   /\ Idle
   /\ cstage = "rules"
-  /\ IF Fam = "rules" THEN nsel = 0 ELSE nsel \in NSel
+  /\ IF Fam \in {"rules", "cells"} THEN nsel = 0 /\ sels = <<>>
+     ELSE nsel \in NSel /\ sels \in SelLists(nsel)
 
 SetCfg(rs, fs, st) ==
   /\ rules' = rs /\ files' = fs /\ cstage' = st
-  /\ UNCHANGED <<part, phase, level, fi, vi, si, ei, ri, tested, signal, dollar, index, file, obs, outcome>>
+  /\ UNCHANGED <<part, phase, level, fi, vi, si, ei, ri, tested, signal, dollar, index, file, cell, fw, obs, outcome>>
 
 AddRule ==
-  /\ phase = "config" /\ cstage = "rules" /\ Fam \in {"rules", "sim"} /\ Len(rules) < MaxRules
+  /\ phase = "config" /\ cstage = "rules" /\ Fam \in {"rules", "sim", "cells"} /\ Len(rules) < MaxRules
   /\ \E r \in Alphabet : CanFollow(rules, r) /\ SetCfg(Append(rules, r), files, "rules")
-  /\ UNCHANGED nsel
+  /\ UNCHANGED <<nsel, sels>>
 PickRules ==
   /\ phase = "config" /\ cstage = "rules" /\ Fam = "inputs" /\ rules = <<>>
   /\ \E rs \in RuleLists : SetCfg(rs, files, "input")
-  /\ UNCHANGED nsel
+  /\ UNCHANGED <<nsel, sels>>
 PickInput ==
   /\ phase = "config" /\ Fam = "rules" /\ files = <<>> /\ cstage = "rules"
   /\ \E i \in InputSel : SetCfg(rules, Inputs[i].files, "input") /\ nsel' = Inputs[i].nsel
+                          /\ sels' = [s \in 1..Inputs[i].nsel |-> s]
+PickCellInput ==
+  /\ phase = "config" /\ Fam = "cells" /\ files = <<>> /\ cstage = "rules"
+  /\ \E i \in InputSel : SetCfg(rules, CellInputs[i].files, "input") /\ nsel' = Len(CellInputs[i].sels)
+                          /\ sels' = CellInputs[i].sels
 AddFile ==
   /\ phase = "config" /\ Fam \in {"inputs", "sim"} /\ Len(files) < MaxFiles
   /\ (Fam = "inputs") => cstage = "input"
   /\ SetCfg(rules, Append(files, <<>>), "input")
-  /\ UNCHANGED nsel
+  /\ UNCHANGED <<nsel, sels>>
 AddValue ==
   /\ phase = "config" /\ cstage = "input" /\ Fam \in {"inputs", "sim"}
   /\ Len(files) > 0 /\ Len(files[Len(files)]) < MaxVals
   /\ \E val \in Values(nsel) :
         SetCfg(rules, [files EXCEPT ![Len(files)] = Append(@, val)], "input")
-  /\ UNCHANGED nsel
+  /\ UNCHANGED <<nsel, sels>>
 AddElem ==
   /\ phase = "config" /\ cstage = "input" /\ Fam = "sim"
   /\ Len(files) > 0 /\ Len(files[Len(files)]) > 0
   /\ LET f == Len(files) v == Len(files[f]) IN
      \E s \in 1..Len(files[f][v]) : \E k \in ElemKinds :
         /\ files[f][v][s].a /\ files[f][v][s].n < MaxArr
-        /\ SetCfg(rules, [files EXCEPT ![f][v][s] = A(Append(@.es, k))], "input")
-  /\ UNCHANGED nsel
+        \* every selector of the same key gets the element
+        /\ SetCfg(rules, [files EXCEPT ![f][v] = [t \in 1..Len(@) |->
+                             IF t = s \/ (t <= Len(sels) /\ s <= Len(sels) /\ sels[t] = sels[s]) THEN A(Append(@[t].es, k)) ELSE @[t]]],
+                  "input")
+  /\ UNCHANGED <<nsel, sels>>
 Start ==
   /\ phase = "config"
   /\ (Fam = "inputs") => rules # <<>>
-  /\ (Fam = "rules") => cstage = "input"
+  /\ (Fam \in {"rules", "cells"}) => cstage = "input"
   /\ Load(rules, files)
-  /\ UNCHANGED <<nsel>> /\ cstage' = "run"
+  /\ UNCHANGED <<nsel, sels>> /\ cstage' = "run"
 
 \* ---- the run: outcomes supplied from the configuration
 CurRule == rules[part[CurKind][ri]]
-CurElemKind == LET root == files[fi][vi][si] IN IF root.a THEN root.es[ei + 1] ELSE root.es[1]
+\* kind of the value in a cell: as read (pk), or as written
+EK(pk, ov) == IF ov[1] = "w" THEN "s1" ELSE IF ov[1] = "p" THEN "o1" ELSE pk
+IsObjK(k) == k \in {"o0", "o1"}
+\* `$.p = v` is guarded by `$ is object`: elsewhere the body writes nothing
+EffW(w, k) == IF w = "sm" /\ ~IsObjK(k) THEN "none" ELSE w
+CurPristine ==
+  IF phase # "files" THEN "nul"
+  ELSE LET root == files[fi][vi][si] IN
+       IF InArrayRound THEN root.es[ei + 1] ELSE IF root.a THEN "ar" ELSE root.es[1]
+CurElemKind == EK(CurPristine, DollarW)
+CurW == EffW(CurRule.w, CurElemKind)
 
 Run ==
   \/ Internal \/ NextValue \/ NextSelector \/ NextElement \/ ConsumeNext \/ Exit \/ Finish
-  \/ phase = "begin" /\ ri <= N("B") /\ RunBegin(SigOf(CurRule))
-  \/ phase = "files" /\ level = "bf" /\ ri <= N("BF") /\ RunBeginFile(SigOf(CurRule))
-  \/ phase = "files" /\ level = "ef" /\ ri <= N("EF") /\ RunEndFile(SigOf(CurRule))
-  \/ phase = "end" /\ ri <= N("E") /\ RunEnd(SigOf(CurRule))
+  \/ phase = "begin" /\ ri <= N("B") /\ RunBegin(SigOf(CurRule), CurW)
+  \/ phase = "files" /\ level = "bf" /\ ri <= N("BF") /\ RunBeginFile(SigOf(CurRule), CurW)
+  \/ phase = "files" /\ level = "ef" /\ ri <= N("EF") /\ RunEndFile(SigOf(CurRule), CurW)
+  \/ phase = "end" /\ ri <= N("E") /\ RunEnd(SigOf(CurRule), CurW)
   \/ phase = "files" /\ level = "rule" /\ ~tested /\ ri <= N("P") /\ TestPattern(Truth(CurRule.pat, CurElemKind))
-  \/ phase = "files" /\ level = "rule" /\ tested /\ RunBody(SigOf(CurRule))
+  \/ phase = "files" /\ level = "rule" /\ tested /\ RunBody(SigOf(CurRule), CurW)
 
 \* the end of a run is a legitimate end of the behaviour; every other state without a successor is a deadlock
 \* of the model (-simulate: behaviours simply end there, deadlock checking is off)
 Terminated == Fam # "sim" /\ phase = "done" /\ UNCHANGED vars
 
 Next ==
-  \/ (AddRule \/ PickRules \/ PickInput \/ AddFile \/ AddValue \/ AddElem \/ Start)
-  \/ (Run /\ UNCHANGED <<nsel, cstage>>)
+  \/ (AddRule \/ PickRules \/ PickInput \/ PickCellInput \/ AddFile \/ AddValue \/ AddElem \/ Start)
+  \/ (Run /\ UNCHANGED <<nsel, cstage, sels>>)
   \/ Terminated
 
 Spec == Init /\ [][Next]_vars
 
------------------------------------------------------------------------------
+-----------------------------------------------------------------------------------------------------------------------------------------------------
 (* An independent, denotational definition of the schedule: the run as one   *)
-(* sequence built by comprehension over files, values, selectors, elements   *)
-(* and rules, cut after the first exit.  Law: the transition system's        *)
-(* history equals it at the end of every run.                                *)
+(* sequence built by recursion over files, values, selectors, elements and   *)
+(* rules (big steps: a round, a root, a value are evaluated as a whole and   *)
+(* hand on what the next one may still see), cut after the first exit.  Law: *)
+(* the transition system's history equals it at the end of every run.        *)
 
-DEntry(t, r, b, sig, d, x, fb) == [t |-> t, r |-> r, b |-> b, sig |-> sig, d |-> d, x |-> x, fb |-> fb]
+DEntry(t, r, b, sig, d, x, fb, w, cw, ews, fwv, dopen) ==
+  [t |-> t, r |-> r, b |-> b, sig |-> sig, d |-> d, x |-> x, fb |-> fb, w |-> w, cw |-> cw, ews |-> ews, fwv |-> fwv, dopen |-> dopen]
 
-DPlain(k, d, fb) ==
+Ov(ov, w, r) == IF w = "sd" THEN <<"w", r>> ELSE IF w = "sm" THEN <<"p", r>> ELSE ov
+
+\* BEGIN / END rules: every rule has its own null cell, nothing it writes is seen again
+DPlain(k, d) ==
   LET ps == OfKind(rules, k) IN
-  [j \in 1..Len(ps) |-> DEntry("body", ps[j], TRUE, SigOf(rules[ps[j]]), d, -1, fb)]
+  [j \in 1..Len(ps) |-> DEntry("body", ps[j], TRUE, SigOf(rules[ps[j]]), d, -1, 0, EffW(rules[ps[j]].w, "nul"), NoW, <<>>, 0, FALSE)]
 
-RECURSIVE DRound(_, _, _, _, _)
-DRound(j, ek, d, x, fb) ==
-  LET ps == OfKind(rules, "P") IN
-  IF j > Len(ps) THEN <<>>
+\* the tree of one root during its round: st = [root, els, fwv]
+PristineRoot(f, v, s) == LET root == files[f][v][s] IN IF root.a THEN "ar" ELSE root.es[1]
+IsArr(f, v, s, st) == files[f][v][s].a /\ st.root[1] # "w"
+
+\* BEGINFILE / ENDFILE rules from the j-th on
+RECURSIVE DFileRules(_, _, _, _, _, _)
+DFileRules(k, j, st, f, v, s) ==
+  LET ps == OfKind(rules, k) IN
+  IF j > Len(ps) THEN [q |-> <<>>, st |-> st]
   ELSE LET r == ps[j]
+           w == EffW(rules[r].w, EK(PristineRoot(f, v, s), st.root))
+           e == DEntry("body", r, TRUE, SigOf(rules[r]), DRoot(f, v, s), -1, f, w, st.root,
+                       (IF IsArr(f, v, s, st) THEN st.els ELSE <<>>), st.fwv, k = "EF" /\ st.root[1] = "w")
+           rest == DFileRules(k, j + 1, [st EXCEPT !.root = Ov(@, w, r), !.fwv = IF w = "sf" THEN r ELSE @], f, v, s)
+       IN [q |-> <<e>> \o rest.q, st |-> rest.st]
+
+\* one round of the pattern rules from the j-th on, on a cell that holds a value of kind pk as read and overlay ov
+RECURSIVE DRound(_, _, _, _, _, _, _)
+DRound(j, ov, fwv, pk, d, x, fb) ==
+  LET ps == OfKind(rules, "P") IN
+  IF j > Len(ps) THEN [q |-> <<>>, ov |-> ov, fwv |-> fwv]
+  ELSE LET r == ps[j]
+           ek == EK(pk, ov)
            b == Truth(rules[r].pat, ek)
            sig == SigOf(rules[r])
-       IN IF ~b THEN <<DEntry("test", r, FALSE, "none", d, x, fb)>> \o DRound(j + 1, ek, d, x, fb)
-          ELSE <<DEntry("test", r, TRUE, "none", d, x, fb), DEntry("body", r, TRUE, sig, d, x, fb)>>
-               \o (IF sig = "next" THEN <<>> ELSE DRound(j + 1, ek, d, x, fb))
+           w == EffW(rules[r].w, ek)
+           test == DEntry("test", r, b, "none", d, x, fb, "none", ov, <<>>, fwv, FALSE)
+       IN IF ~b THEN LET rest == DRound(j + 1, ov, fwv, pk, d, x, fb) IN [rest EXCEPT !.q = <<test>> \o @]
+          ELSE LET body == DEntry("body", r, TRUE, sig, d, x, fb, w, ov, <<>>, fwv, FALSE)
+                   ov2 == Ov(ov, w, r)
+                   fw2 == IF w = "sf" THEN r ELSE fwv
+               IN IF sig = "next" THEN [q |-> <<test, body>>, ov |-> ov2, fwv |-> fw2]
+                  ELSE LET rest == DRound(j + 1, ov2, fw2, pk, d, x, fb) IN [rest EXCEPT !.q = <<test, body>> \o @]
 
-DRoot1(f, v, s) ==
+\* the rounds of the elements from the e-th on (1-based)
+RECURSIVE DElems(_, _, _, _, _)
+DElems(e, st, f, v, s) ==
   LET root == files[f][v][s] IN
-  DPlain("BF", DRoot(f, v, s), f)
-  \o (IF root.a
-        THEN FlattenSeq([e \in 1..root.n |-> DRound(1, root.es[e], DElem(f, v, s, e - 1), e - 1, f)])
-        ELSE DRound(1, root.es[1], DRoot(f, v, s), -1, f))
-  \o DPlain("EF", DRoot(f, v, s), f)
+  IF e > root.n THEN [q |-> <<>>, st |-> st]
+  ELSE LET rd == DRound(1, ElOv(st, e), st.fwv, root.es[e], DElem(f, v, s, e - 1), e - 1, f)
+           st2 == IF rd.ov = NoW THEN [st EXCEPT !.fwv = rd.fwv] ELSE [SetEl(st, e, rd.ov) EXCEPT !.fwv = rd.fwv]
+           rest == DElems(e + 1, st2, f, v, s)
+       IN [q |-> rd.q \o rest.q, st |-> rest.st]
+
+\* one root: a fresh tree; fwin = 0, or -1 when an earlier round of the value overwrote $file
+DRoot1(f, v, s, fwin) ==
+  LET bf == DFileRules("BF", 1, [root |-> NoW, els |-> <<>>, fwv |-> fwin], f, v, s)
+      pr == IF IsArr(f, v, s, bf.st) THEN DElems(1, bf.st, f, v, s)
+            ELSE LET rd == DRound(1, bf.st.root, bf.st.fwv, PristineRoot(f, v, s), DRoot(f, v, s), -1, f)
+                 IN [q |-> rd.q, st |-> [bf.st EXCEPT !.root = rd.ov, !.fwv = rd.fwv]]
+      ef == DFileRules("EF", 1, pr.st, f, v, s)
+  IN [q |-> bf.q \o pr.q \o ef.q, fwv |-> ef.st.fwv]
+
+RECURSIVE DSels(_, _, _, _)
+DSels(s, fwin, f, v) ==
+  IF s > Len(files[f][v]) THEN <<>>
+  ELSE LET one == DRoot1(f, v, s, fwin) IN one.q \o DSels(s + 1, (IF one.fwv = 0 THEN 0 ELSE -1), f, v)
 
 DAll ==
-  DPlain("B", DOpen, 0)
-  \o FlattenSeq([f \in 1..Len(files) |->
-       FlattenSeq([v \in 1..Len(files[f]) |->
-         FlattenSeq([s \in 1..Len(files[f][v]) |-> DRoot1(f, v, s)])])])
-  \o DPlain("E", DNull, 0)
+  DPlain("B", DOpen)
+  \o FlattenSeq([f \in 1..Len(files) |-> FlattenSeq([v \in 1..Len(files[f]) |-> DSels(1, 0, f, v)])])
+  \o DPlain("E", DNull)
 
 DCut(q) ==
   LET X == {k \in 1..Len(q) : q[k].sig = "exit"} IN
@@ -198,7 +303,10 @@ Denote == DCut(DAll)
 Proj(a) ==
   DEntry(a.t, a.r, a.b, a.sig, a.d,
          (IF a.d.t = "elem" THEN a.x ELSE -1),
-         (IF a.k \in {"BF", "P", "EF"} THEN a.fb ELSE 0))
+         (IF a.k \in {"BF", "P", "EF"} THEN a.fb ELSE 0),
+         a.w, a.cw, a.ews,
+         (IF a.k \in {"BF", "P", "EF"} THEN a.fw ELSE 0),
+         a.dopen)
 
 DenoteLaw == phase = "done" => [k \in 1..Len(obs) |-> Proj(obs[k])] = Denote
 
@@ -209,17 +317,29 @@ ShapeLaw ==
      /\ \A s \in 1..Len(files[f][v]) :
           LET root == files[f][v][s] IN
           IF root.a THEN root.n = Len(root.es) ELSE root.n = -1 /\ Len(root.es) = 1 /\ root.es[1] # "ar"
+     /\ Len(sels) = nsel
+     /\ \A s \in 1..nsel :
+          /\ sels[s] = 0 => files[f][v][s] = S("o0")
+          /\ \A t \in 1..nsel : sels[s] = sels[t] => files[f][v][s] = files[f][v][t]
 
-\* ---- vector: configuration + body activations <<rule, dollar type, f, v, s, e, $index, $file>>
+\* ---- vector: configuration + body activations
+\* <<rule, dollar type, f, v, s, e, $index, $file, $ open, $file cell, tag and rule of the overlay of $,
+\*   then per element of an array root shown as a whole: tag, rule>>
 DCode(t) == CASE t = "open" -> 0 [] t = "null" -> 1 [] t = "root" -> 2 [] t = "elem" -> 3
+OvCode(t) == CASE t = "-" -> 0 [] t = "p" -> 1 [] t = "w" -> 2
 Bodies == SelectSeq(obs, LAMBDA a : a.t = "body")
 Vec ==
   phase = "done" =>
-    Emit([rules |-> [i \in 1..Len(rules) |-> <<rules[i].kind, rules[i].pat, rules[i].body>>],
-          nsel |-> nsel,
+    Emit([rules |-> [i \in 1..Len(rules) |-> <<rules[i].kind, rules[i].pat, rules[i].body, rules[i].w>>],
+          nsel |-> nsel, sels |-> sels,
           files |-> [f \in 1..Len(files) |-> [v \in 1..Len(files[f]) |-> [s \in 1..Len(files[f][v]) |->
                        [a |-> files[f][v][s].a, es |-> files[f][v][s].es]]]],
           lines |-> [k \in 1..Len(Bodies) |->
-                       LET a == Bodies[k] IN <<a.r, DCode(a.d.t), a.d.f, a.d.v, a.d.s, a.d.e, a.x, a.fb>>],
+                       LET a == Bodies[k]
+                           n == IF a.k \in {"BF", "EF"} /\ a.en >= 0 THEN a.en ELSE 0
+                       IN <<a.r, DCode(a.d.t), a.d.f, a.d.v, a.d.s, a.d.e, a.x, a.fb,
+                            (IF a.dopen THEN 1 ELSE 0), a.fw, OvCode(a.cw[1]), a.cw[2]>>
+                          \o FlattenSeq([e \in 1..n |->
+                                LET ov == IF e \in DOMAIN a.ews THEN a.ews[e] ELSE NoW IN <<OvCode(ov[1]), ov[2]>>])],
           exit |-> Exited])
 =============================================================================
